@@ -363,6 +363,10 @@ impl<R: Read> Reader<R> {
             STRIPPED_CPIO_MAGIC_NUMBER => {
                 // char    fx[8];
                 let file_index = read_hex_u32(&mut inner)?;
+                // Like the newc header, the stripped header is padded to a multiple of 4 bytes.
+                if let Some(mut padding) = pad(STRIPPED_CPIO_HEADER_LEN) {
+                    inner.read_exact(&mut padding)?;
+                }
                 RpmPayloadEntry::Stripped(file_index)
             }
             _ => {
